@@ -78,6 +78,10 @@ type c08Shape struct {
 	// Cores > 0: the verifying node has that many cores (ledger.NumCPU, the width of the ledger's per-transaction
 	// parallel loops); 0 = this machine's count
 	Cores int `json:"cores,omitempty"`
+	// Known: before the block and its mutants are judged, the verifying ledger has CONFIRMED the block's transactions in
+	// a sibling block of another proposer (round-7 change C08-k: VerifyBlock skips the id check of transactions the
+	// ledger already holds) - a block carrying a known transaction with an altered body must be refused all the same
+	Known bool `json:"known,omitempty"`
 }
 
 // c08MachineCPU: this machine's value of ledger.NumCPU (restored when a shape does not choose one).
@@ -267,6 +271,21 @@ func c08Build(lo *hx.LedgerOnly, s c08Shape) (*c08Built, error) {
 	h.Write(js)
 	b.shapeH = fmt.Sprintf("%016x", h.Sum64())
 	return b, nil
+}
+
+// c08MakeKnown confirms the block's transactions in a sibling block (child of the ledger's root, other proposer) so that
+// the verifying ledger already holds them. A refused confirmation (e.g. the same transactions are on the trunk
+// already) is not an error: they are known then, too.
+func c08MakeKnown(b *c08Built) {
+	if !b.shape.Known || b.shape.Fmt == "root" || b.shape.NTx == 0 {
+		return
+	}
+	txs := c08Txs(b.shape, b.key)
+	sib, err := b.lo.Ledger.FormatBlock(txs, []byte(b.other.Address), b.other.Priv, b.shape.TS+7, 0, 0, b.lo.Root.Blockid, big.NewInt(0))
+	if err != nil || b.lo.Ledger.ExistBlock(sib.Blockid) {
+		return
+	}
+	b.lo.Ledger.ConfirmBlock(sib, false)
 }
 
 // c08Verify calls the real VerifyBlock; a panic is reported as an error.
@@ -1099,6 +1118,7 @@ func evalC08Split(shape c08Shape, mut c08Mut) (baseErr, mutErr error) {
 		if shape.NTx == 0 || shape.Fmt == "root" {
 			return nil
 		}
+		c08MakeKnown(b)
 		_, _, _, mutErr = b.evalOne(mut)
 		return nil
 	})
@@ -1127,6 +1147,7 @@ func evalC08All(shape c08Shape) error {
 		if shape.NTx == 0 || shape.Fmt == "root" {
 			return nil
 		}
+		c08MakeKnown(b)
 		for _, mu := range b.mutations() {
 			m, meta, ok := b.apply(mu)
 			if !ok || (meta.finding != "" && c08Exclude[meta.finding]) {
@@ -1273,6 +1294,7 @@ func c08GenShape(rt *rapid.T) c08Shape {
 	// half of the blocks are judged by a node with fewer cores than this machine (bodies longer than the core count,
 	// and not a multiple of it, exercise the chunking of the ledger's parallel per-transaction loops)
 	s.Cores = rapid.SampledFrom([]int{0, 0, 0, 1, 2, 3, 4}).Draw(rt, "cores")
+	s.Known = rapid.IntRange(0, 2).Draw(rt, "known") == 0
 	if s.Fmt == "root" {
 		if s.NTx == 0 {
 			s.NTx = 1
@@ -1471,6 +1493,10 @@ diff:
 		if nt {
 			cs.NontrivialKey(b.shapeH)
 		}
+		if shape.Known {
+			cs.Label("transactions-already-confirmed-in-a-sibling-block")
+		}
+		c08MakeKnown(b)
 		for _, mu := range b.mutations() {
 			m, meta, ok := b.apply(mu)
 			if !ok {
